@@ -12,7 +12,8 @@ package main
 //             verifiers are unique per login, so another login's verifier cannot satisfy K's challenge)
 //   session cookie set  <=>  nonceOK && pkceOK
 // History monitors (provider log + the harness' own decryption of its CSRF cookies):
-//   - method configured => every authorization request carries code_challenge and code_challenge_method=<method>
+//   - method configured => every authorization request carries code_challenge and code_challenge_method=<the CONFIGURED
+//     method>, whatever code_challenge_methods_supported the provider's discovery document advertised at start-up
 //   - the verifier (cookie, and as presented at the token endpoint) matches ^[A-Za-z0-9._~-]{43,128}$, the challenge is
 //     derived from it (S256 / plain), the verifier presented at redemption is the one stored for the presented login,
 //     and the provider accepted it exactly when the code belongs to that login
@@ -112,6 +113,10 @@ type c05Cfg struct {
 	Method    string // "" | S256 | plain
 	SkipNonce bool
 	PerReq    bool
+	// Advertised: what the provider's discovery document listed as code_challenge_methods_supported when the instance
+	// was built ("" = the default S256+plain). The CONFIGURED method is what the property speaks about: whatever the
+	// provider advertises, the authorization request must carry that method.
+	Advertised string
 }
 
 func (c c05Cfg) Label() string {
@@ -119,12 +124,17 @@ func (c c05Cfg) Label() string {
 	if m == "" {
 		m = "none"
 	}
-	return fmt.Sprintf("method=%s,skipnonce=%v,perreq=%v", m, c.SkipNonce, c.PerReq)
+	l := fmt.Sprintf("method=%s,skipnonce=%v,perreq=%v", m, c.SkipNonce, c.PerReq)
+	if c.Advertised != "" {
+		l += ",provider-advertises=" + c.Advertised
+	}
+	return l
 }
 
 type c05Inst struct {
-	Cfg c05Cfg
-	P   *vfProxy
+	Cfg  c05Cfg
+	P    *vfProxy
+	Lean bool // reduced behaviour x shape grid (the instance exists for the method/leak monitors)
 }
 
 type c05Login struct {
@@ -383,10 +393,32 @@ func (cw *c05World) uninstall() {
 	cw.W.IdP.Set(func(c *vfIdPCfg) { c.MutateIDClaims, c.MintOverride = nil, nil })
 }
 
+// checkStart judges the authorization request of a freshly started login as the provider recorded it: with a method
+// configured it must carry a challenge and exactly the configured method.
+func (cw *c05World) checkStart(l *c05Login) {
+	run := cw.Run
+	cfg := l.Inst.Cfg
+	if cfg.Method == "" {
+		return
+	}
+	ch, m := l.Challenge, l.ChMethod
+	switch {
+	case ch == "":
+		run.Violation("c05:authorization-request-without-challenge", fmt.Sprintf("[%s] authorization request carries code_challenge=%q code_challenge_method=%q", cfg.Label(), ch, m),
+			map[string]interface{}{"flags": l.Inst.P.Flags, "login_start_location": l.Start.Location()})
+	case m != cfg.Method:
+		run.Violation("c05:authorization-request-method-differs-from-configured",
+			fmt.Sprintf("[%s] --code-challenge-method=%s is configured but the authorization request carries code_challenge_method=%q (code_challenge=%q)", cfg.Label(), cfg.Method, m, vfTrunc(ch, 60)),
+			map[string]interface{}{"flags": l.Inst.P.Flags, "provider_advertised_code_challenge_methods": cfg.Advertised, "login_start_location": l.Start.Location()})
+	}
+	run.Count("authorization_requests_method_checked", 1)
+}
+
 func (cw *c05World) addLogin(l *c05Login) {
 	cw.mu.Lock()
 	cw.logins = append(cw.logins, l)
 	cw.mu.Unlock()
+	cw.checkStart(l)
 }
 
 // ---------------------------------------------------------------------------------------------------------
@@ -756,11 +788,11 @@ func (cw *c05World) history() {
 		run.Eval("")
 		if cfg.Method != "" {
 			ch, m := ar.Params.Get("code_challenge"), ar.Params.Get("code_challenge_method")
-			if ch == "" || m != cfg.Method {
-				run.Violation("c05:authorization-request-without-challenge", fmt.Sprintf("[%s] authorization request carries code_challenge=%q code_challenge_method=%q", cfg.Label(), ch, m),
-					map[string]interface{}{"flags": l.Inst.P.Flags, "authorization_request": ar.Params})
-			}
+			_, _ = ch, m // judged when the login was started (checkStart), from the same provider record
 			run.Count("authorization_requests_with_challenge", 1)
+			if cfg.Advertised != "" {
+				run.Count("authorization_requests_of_instances_with_nondefault_discovery", 1)
+			}
 		} else {
 			run.Count("authorization_requests_without_method", 1)
 		}
@@ -893,7 +925,7 @@ func c05LeakSelfTest(t *testing.T) {
 
 func TestVerif_C05(t *testing.T) {
 	run := vfNewRun(t, "C05", "exploration")
-	run.SetRule("12 configurations (code-challenge method none/S256/plain x skip-nonce on/off x csrf-per-request on/off); per configuration every provider nonce behaviour (19: echo, this/other login's nonce, empty, absent, null, raw in 4 notations, prefix/extended/padded/case-swapped hash, hash of hash, state nonce, list, number, replayed previous ID token) " +
+	run.SetRule("12 configurations (code-challenge method none/S256/plain x skip-nonce on/off x csrf-per-request on/off) + 5 instances built while the provider's discovery advertises other code_challenge_methods_supported than the configured method ([plain], [], [S512], [plain,S512] with S256 configured; [S256] with plain configured; reduced grid); per configuration every provider nonce behaviour (19: echo, this/other login's nonce, empty, absent, null, raw in 4 notations, prefix/extended/padded/case-swapped hash, hash of hash, state nonce, list, number, replayed previous ID token) " +
 		"x login shape (sequential, overlapping fifo/lifo, nested; more in thorough) x {own code, code of another login}; plus bulk login starts for the uniqueness / RFC 7636 / challenge monitors over the provider log. " +
 		"cell = (method, skip-nonce, per-request, behaviour, shape, own/other code, expected); non-trivial = every callback")
 	run.Assume("the fake provider verifies PKCE like a real one (challenge stored per code, recomputed from the presented verifier)",
@@ -940,6 +972,32 @@ func TestVerif_C05(t *testing.T) {
 			}
 		}
 	}
+	// instances built while the provider's discovery document advertises other code_challenge_methods_supported than the
+	// configured one: the configured method must be used all the same (no silent down- or upgrade)
+	for k, nd := range []struct {
+		method string
+		adv    []string
+		label  string
+	}{
+		{"S256", []string{"plain"}, "[plain]"},
+		{"S256", []string{}, "[]"},
+		{"S256", []string{"S512"}, "[S512]"},
+		{"plain", []string{"S256"}, "[S256]"},
+		{"S256", []string{"plain", "S512"}, "[plain,S512]"},
+	} {
+		pr := (k+int(run.Env.Seed))%2 == 0
+		cfg := c05Cfg{Method: nd.method, SkipNonce: false, PerReq: pr, Advertised: nd.label}
+		adv := nd.adv
+		w.IdP.Set(func(c *vfIdPCfg) { c.ChallengeMethods = adv })
+		p, err := w.NewProxy("--insecure-oidc-skip-nonce=false", "--cookie-csrf-per-request="+strconv.FormatBool(pr), "--code-challenge-method="+nd.method)
+		w.IdP.Set(func(c *vfIdPCfg) { c.ChallengeMethods = nil })
+		if err != nil {
+			t.Fatalf("%s: %v", cfg.Label(), err)
+		}
+		insts = append(insts, &c05Inst{Cfg: cfg, P: p, Lean: true})
+	}
+	leanBeh := map[string]bool{"echo": true, "other-logins-nonce": true, "absent": true, "raw-base64url": true, "previous-logins-id-token-replayed": true}
+	leanShape := map[string]bool{"sequential": true, "overlap-lifo": true}
 	type job struct {
 		inst  *c05Inst
 		beh   c05Beh
@@ -954,6 +1012,9 @@ func TestVerif_C05(t *testing.T) {
 	for ii, inst := range insts {
 		for bi, beh := range behs {
 			for si, sh := range shapes {
+				if inst.Lean && !(leanBeh[beh.Name] && leanShape[sh.Name]) {
+					continue
+				}
 				for _, cross := range []bool{false, true} {
 					for r := 0; r < reps; r++ {
 						jobs = append(jobs, job{inst, beh, sh, cross, run.Env.Seed*7919 + int64(((ii*64+bi)*16+si)*8+r)})
@@ -987,7 +1048,7 @@ func TestVerif_C05(t *testing.T) {
 		}
 	})
 	cw.history()
-	if run.Counter("verifiers_checked") == 0 || run.Counter("token_requests_checked") == 0 || run.Counter("own_redemptions_verified_by_provider") == 0 || run.Counter("cross_redemptions_rejected_by_provider") == 0 {
+	if run.Counter("verifiers_checked") == 0 || run.Counter("token_requests_checked") == 0 || run.Counter("own_redemptions_verified_by_provider") == 0 || run.Counter("cross_redemptions_rejected_by_provider") == 0 || run.Counter("authorization_requests_of_instances_with_nondefault_discovery") == 0 {
 		run.Inconclusive("a history monitor saw no events")
 		fmt.Printf("INCONCLUSIVE property=C05 reason=history monitor without events\n")
 		t.Fail()
